@@ -163,7 +163,7 @@ Section LevelA.
   Lemma prealloc_range n : 0 <= prealloc n /\ prealloc n <= c_PreallocateLimit.
   Proof.
     assert (P : 0 < c_PreallocateLimit) by reflexivity.
-    unfold prealloc. destruct (Z.gtb_spec n 0); [|lia].
+    unfold prealloc, prealloc_guard_go, prealloc_cap_go. destruct (Z.gtb_spec n 0); [|lia].
     pose proof (Z.rem_bound_pos n c_PreallocateLimit ltac:(lia) P). lia.
   Qed.
   Lemma make_cap_prealloc n : make_cap (prealloc n) = Ok tt.
@@ -242,7 +242,7 @@ Qed.
 Theorem prealloc_bound n : 0 <= prealloc n <= c_PreallocateLimit.
 Proof.
   assert (P : 0 < c_PreallocateLimit) by reflexivity.
-  unfold prealloc. destruct (Z.gtb_spec n 0); [|lia].
+  unfold prealloc, prealloc_guard_go, prealloc_cap_go. destruct (Z.gtb_spec n 0); [|lia].
   pose proof (Z.rem_bound_pos n c_PreallocateLimit ltac:(lia) P). lia.
 Qed.
 
